@@ -202,6 +202,15 @@ func C11(e *Env) {
 }
 
 func c11Languages(e *Env, vars []RegexVar) {
+	seen := c11LanguagesOf(e, vars)
+	for k := range refGrammars {
+		if !seen[k] {
+			e.R.Undecide("R11.2", k, "the regular expression this reference grammar is bound to no longer exists under this name")
+		}
+	}
+}
+
+func c11LanguagesOf(e *Env, vars []RegexVar) map[string]bool {
 	r := e.R
 	seen := map[string]bool{}
 	for _, v := range vars {
@@ -246,11 +255,7 @@ func c11Languages(e *Env, vars []RegexVar) {
 			r.Hold("R11.2", v.Key, ref.what+": language equals the reference for all strings", e.P.Pos(v.Pos))
 		}
 	}
-	for k := range refGrammars {
-		if !seen[k] {
-			r.Undecide("R11.2", k, "the regular expression this reference grammar is bound to no longer exists under this name")
-		}
-	}
+	return seen
 }
 
 // compiledLang gives the language a regular expression accepts the way the code uses it:
